@@ -473,3 +473,28 @@ func (b *Backend) WALEvents() ([]WALEvent, error) {
 	}
 	return out, nil
 }
+
+// NewObserverStore builds a second, un-intercepted real store on the backend (no engines, no
+// Calcium): checks use it to call read APIs such as GetDeployStatus while an instance is
+// running. Must be created and closed inside the same bubble as its users.
+func (b *Backend) NewObserverStore(redis bool) (store.Store, func()) {
+	cfg := BaseConfig()
+	ctx, cancel := context.WithCancel(context.Background())
+	pool, _ := utils.NewPool(1000)
+	if redis {
+		cfg.Redis.Addr = b.Redis.Addr()
+		cli := goredis.NewClient(&goredis.Options{Addr: b.Redis.Addr(), IdleCheckFrequency: -1, MaxRetries: -1})
+		return storeredis.NewWithClient(cli, cfg, pool), func() {
+			cancel()
+			cli.Close()
+			_ = pool.ReleaseTimeout(2 * time.Second)
+		}
+	}
+	cli := b.Etcd.NewClientHook(ctx, func(context.Context, memetcd.Point) error { return nil })
+	kv := meta.NewETCDWithClient(cli, cfg.Etcd)
+	return etcdv3.NewWithKV(cfg, kv, pool), func() {
+		cancel()
+		cli.Lease.Close()
+		_ = pool.ReleaseTimeout(2 * time.Second)
+	}
+}
